@@ -13,7 +13,7 @@ CONSTANT FreePut = TRUE
 CONSTANT MaxOps = 10
 CONSTANT MaxSteps = 10
 CONSTANT Pool = 6
-CONSTANT Sequential = TRUE
+CONSTANT SeqPrefix = 1000000
 SPECIFICATION Spec
 INVARIANT BehaviourExport
 CHECK_DEADLOCK FALSE
